@@ -162,6 +162,13 @@ func Parse(s string) (*DPoP, error) {
 	if v, ok := token.Get(HTMKey); !ok || v == "" {
 		return nil, fmt.Errorf("%w: missing htm claim", ErrInvalidDPoP)
 	}
+	// HTU() and HTM() assume string claims
+	if v, _ := token.Get(HTUKey); !isString(v) {
+		return nil, fmt.Errorf("%w: invalid htu claim", ErrInvalidDPoP)
+	}
+	if v, _ := token.Get(HTMKey); !isString(v) {
+		return nil, fmt.Errorf("%w: invalid htm claim", ErrInvalidDPoP)
+	}
 	if token.JwtID() == "" {
 		return nil, fmt.Errorf("%w: missing jti claim", ErrInvalidDPoP)
 	}
@@ -170,6 +177,11 @@ func Parse(s string) (*DPoP, error) {
 	}
 
 	return &DPoP{raw: s, Token: token, Headers: headers}, nil
+}
+
+func isString(v interface{}) bool {
+	_, ok := v.(string)
+	return ok
 }
 
 func jwkIsPrivateKey(jwk jwk.Key) bool {
